@@ -101,7 +101,29 @@ def make_flags(f):
         release_taskgraphs=f["release_taskgraphs"],
         scheduler_log_to_file=False,
     )
-    return types.SimpleNamespace(**d)
+    return types.SimpleNamespace(**{**_flag_defaults(), **d})
+
+
+_FLAG_DEFAULTS = None
+
+
+def _flag_defaults():
+    """Every flag main.py defines, at its default value: whatever flag the code under test reads exists (the values
+    the end-to-end suite controls are set explicitly by `make_flags`)."""
+    global _FLAG_DEFAULTS
+    if _FLAG_DEFAULTS is None:
+        try:
+            from absl import flags as _absl_flags
+
+            import main as _main  # noqa: F401  (defines the flags)
+
+            FL = _absl_flags.FLAGS
+            if not FL.is_parsed():
+                FL(["erdos-verif"])
+            _FLAG_DEFAULTS = {k: FL[k].value for k in FL if not k.startswith("?")}
+        except Exception:
+            _FLAG_DEFAULTS = {}
+    return dict(_FLAG_DEFAULTS)
 
 
 class RandomPolicy(BaseScheduler):
@@ -222,6 +244,7 @@ class Run:
         json.dump(w["workload"], open(wl_path, "w"))
         json.dump(w["workers"], open(wk_path, "w"))
         self.flags = make_flags(w["flags"])
+        self.flags.random_seed = self.seed
         _random.seed(self.seed)
         EventTime._rng = _random.Random(self.seed)
         _prepare_loggers()
